@@ -40,6 +40,11 @@ STATIC = {
     "continue_outside_loop": "continue",
     "break_in_function_in_loop": "for i := 0; i < 1; i++ { g := func() { break } }",
     "assign_to_builtin": "len = 5",
+    "return_top": "return 1",
+    "return_in_block": "if true { return 1 }",
+    "return_in_loop": "for { return }",
+    "return_in_nested_blocks": "for q in [1] { if q { return q } else { return } }",
+    "export_in_function": "export 5",
     "import_unknown": "q := import(\"no_such_module\")",
     "import_empty": "q := import(\"\")",
 }
@@ -131,7 +136,13 @@ def run(ck):
     scases = []
     for name, code in STATIC.items():
         for where in ("top", "block", "func", "nested", "loop-func"):
+            if name.startswith("return_") and where not in ("top", "block"):
+                continue  # a return inside a function body is legal
+            if name.startswith("export_") and where in ("top", "block"):
+                continue  # export at module level is legal
             for asmod in (False, True):
+                if asmod and name.startswith("return_"):
+                    continue  # a module body is compiled as a function body: return is legal there
                 c = {"id": len(cases), "tag": "static:" + name, "src": place(code, where), "asmod": asmod, "imports": False, "run": False, "static": name, "where": where}
                 cases.append(c)
                 scases.append(c)
